@@ -106,6 +106,23 @@ def gen(cls, idx, rng, tier):
         for _ in range(rng.randint(0, 3)):
             nets.append((rng.choice(vertices)[0],
                          [rng.choice(vertices)[0]], 1.0))
+    if rng.random() < .12:
+        # the same problem in much larger units (a 64-bit address space):
+        # every quantity of one resource is multiplied by a number that a
+        # double cannot hold
+        name = rng.choice(sorted(m["res"]))
+        k = rng.choice([(1 << 54) + 1, (1 << 60) + 3, (1 << 53) + 1,
+                        10 ** 17 + 7])
+        m["res"][name] *= k
+        for xy in m["exc"]:
+            if name in m["exc"][xy]:
+                m["exc"][xy][name] *= k
+        vertices = [(v, {n: q * k if n == name else q for n, q in r.items()})
+                    for v, r in vertices]
+        cons = [(c[0], c[1], c[2] * k, c[3] * k, c[4])
+                if c[0] == "reserve" and c[1] == name else
+                (c[0], c[1], c[2] * k) if c[0] == "align" and c[1] == name
+                else c for c in cons]
     return dict(machine=m, vertices=vertices, nets=nets, constraints=cons,
                 placements=placements)
 
